@@ -1,7 +1,7 @@
 (* C06/Properties.v — property theorems only (each closed by [exact lemma] and followed by
    [Print Assumptions]).  Model: C06/Model.v (the code after fix commits 3a7f18b, 811f017, 2c8a29b). *)
 From Coq Require Import String Permutation Morphisms.
-From RM Require Import C06.Model C06.Proofs C06.Proofs2 C06.Proofs3 C06.Proofs4 C06.Proofs5 C06.Driver.
+From RM Require Import C06.Model C06.GenModel C06.Proofs C06.Proofs2 C06.Proofs3 C06.Proofs4 C06.Proofs5 C06.Proofs6 C06.Driver C06.GenDriver.
 Open Scope Z_scope.
 
 (* No Panic and no OutOfFuel: for ALL rule texts (arbitrary byte strings), every walker (any
@@ -279,3 +279,81 @@ Proof.
     destruct H1 as [H1|[H1|[H1|[]]]], H2 as [H2|[H2|[H2|[]]]]; subst n1 n2;
       try (exfalso; apply Hne; reflexivity); right; right; vm_compute; intro H; discriminate H.
 Qed.
+
+(* ==== Round 5: the evaluator REGENERATED from walker.rs (Gen/CfiOps.v, translate/c06_cfi_ops.py) ====
+   [gen_eval_step] interprets the `match token` arms of eval_cfi_expr (statement lists: pops, guards, pushes over
+   wrapping / checked u64 operations, in source order, then the if-let chain of the `_` arm); [gen_classify] /
+   [gen_strip_label] the label chain of parse_cfi_exprs; [gen_walk] the statement skeleton of walk_with_stack_cfi
+   (parse order, removals, the cfa argument of each evaluation, set_cfa / set_ra, the sort, the actions of the rule
+   loop).  The interpretation is the hand-written model, for ALL inputs: every theorem above is a theorem about the
+   tables the translator produced from the code of this run. *)
+Theorem c06_gen_model_is_model :
+  (forall p E cfa t st, gen_eval_step p E cfa t st = eval_step p E cfa t st) /\
+  (forall p E e cfa, gen_eval_cfi_expr p E e cfa = eval_cfi_expr p E e cfa) /\
+  (forall name, gen_classify name = classify_reg name) /\
+  (forall t, gen_strip_label t = strip_suffix_colon t) /\
+  (forall texts out, gen_parse_all texts out = parse_all texts out) /\
+  (forall S (ops : wops S) p E init adds s,
+     gen_walk ops p E init adds s = walk_with_stack_cfi ops p E (init :: adds) s) /\
+  (forall S (ops : wops S) p E r addr s,
+     gen_walk_frame_cfi ops p E r addr s = walk_frame_cfi ops p E r addr s).
+Proof.
+  exact (conj gen_eval_step_eq (conj gen_eval_cfi_expr_eq (conj gen_classify_eq (conj gen_strip_label_eq
+        (conj gen_parse_all_eq (conj (@gen_walk_eq) gen_walk_frame_eq)))))).
+Qed.
+Print Assumptions c06_gen_model_is_model.
+
+(* no Panic from the generated evaluator: besides the slice, unreachable!() and `rhs - 1`, this covers the zero
+   divisor of u64::wrapping_div / wrapping_rem (PANIC_DIV0: the guards `if rhs == 0 { return None }` of the
+   generated arms are what excludes it) and ill-formed step sequences (PANIC_GEN) *)
+Theorem c06_gen_total :
+  forall (S : Type) (ops : wops S) (p : profile) (E : env) (r : cfi_record) (addr : Z) (s : S),
+    exists o : option S, gen_walk_frame_cfi ops p E r addr s = Ret o.
+Proof. exact gen_walk_frame_total. Qed.
+Print Assumptions c06_gen_total.
+
+(* the generated operator table against the documented postfix language *)
+Theorem c06_gen_refines_spec_expr :
+  forall p E cfa e,
+    env_wf E -> (forall c, cfa = Some c -> 0 <= c < two64) -> Forall documented e ->
+    gen_eval_cfi_expr p E e cfa = match spec_eval E cfa e with Some v => Ret v | None => Fail end.
+Proof. exact gen_eval_refines_spec. Qed.
+Print Assumptions c06_gen_refines_spec_expr.
+
+(* c06_refines_spec for the generated evaluator (this is the function the correspondence run extracts) *)
+Theorem c06_gen_refines_spec :
+  forall w p E r addr,
+    env_wf E -> all_documented r addr ->
+    match gen_walk_frame_cfi (mock_ops w) p E r addr m_init, cfi_spec w E r addr with
+    | Ret (Some s), Some (cfa, ra, regs) =>
+        m_cfa s = Some cfa /\ m_ra s = Some ra /\ forall n, m_regs s n = regs n
+    | Ret None, None => True
+    | _, _ => False
+    end.
+Proof. exact gen_walk_refines_spec. Qed.
+Print Assumptions c06_gen_refines_spec.
+
+Theorem c06_gen_real_walker_refines_spec :
+  forall a p E r addr s0,
+    env_wf E -> all_documented r addr -> real_documented_nonaliasing a r addr ->
+    match gen_walk_frame_cfi (real_ops a) p E r addr s0, cfi_spec_real a E r addr s0 with
+    | Ret (Some s), Some (ctx, valid) => forall c, r_ctx s c = ctx c /\ r_valid s c = valid c
+    | Ret None, None => True
+    | _, _ => False
+    end.
+Proof. exact gen_real_walk_refines_spec. Qed.
+Print Assumptions c06_gen_real_walker_refines_spec.
+
+(* non-vacuity: the generated tables compute (every operator arm, the three branches of the `_` arm, a failing rule) *)
+Example c06_nonvacuous_gen :
+  let E := mkEnv (fun n => assoc n [(bs "rsp", 100); (bs "rax", 7)])
+                 (mem_read 8 96 [1;2;3;4;5;6;7;8;9;10;11;12;13;14;15;16;17;18;19;20;21;22;23;24]) 5 false 0 in
+  match gen_walk_frame_cfi (mock_ops 8) Debug E
+          (mkCfi (0, bs ".cfa: $rsp 8 + .ra: .cfa -8 + ^") 16
+                 [(6, bs "$rbx: 5"); (1, bs ".cfa: $rsp 16 + $rax: .cfa -16 + ^ $rcx: 1 0 / r9: 77 rax 3 * - 5 % 40 + 16 @ 2 /")]) 5 m_init with
+  | Ret (Some s) => m_cfa s = Some 116 /\ m_ra s = Some 1446519769809227277 /\
+                    m_regs s (bs "rax") = SetTo 867798387104613893 /\ m_regs s (bs "rcx") = Cleared /\
+                    m_regs s (bs "rbx") = Unset /\ m_regs s (bs "r9") = SetTo 16
+  | _ => False
+  end.
+Proof. vm_compute. repeat split; reflexivity. Qed.
